@@ -75,6 +75,11 @@ func grpcLayout(sp *spec.Spec, t *spec.Type, streamed bool, maps map[string][]sp
 			// with a streaming payload the (non-streamed) payload attributes travel as metadata
 			p.Where = spec.GMetadata
 		}
+		if a.Sec != "" && a.Tag == 0 && p.Where == spec.GMessage {
+			// a credential attribute without a field number: goa sends it as request metadata under
+			// a key of its choice (Wire "": the key is not asserted)
+			p.Where, p.Wire = spec.GMetadata, ""
+		}
 		l.Places = append(l.Places, p)
 	}
 	return l
@@ -136,6 +141,11 @@ func carriable(l *GLayout, v any) bool {
 		if !metaCarriable(pv) {
 			return false
 		}
+		// a credential of the form "<scheme> <credentials>" loses its scheme prefix by design
+		// (C06's subject): credential values containing white space are outside this alphabet
+		if sv, ok := pv.(string); ok && p.A != nil && p.A.Sec != "" && strings.ContainsAny(sv, " \t") {
+			return false
+		}
 	}
 	return true
 }
@@ -153,6 +163,65 @@ func unionValues(sp *spec.Spec, t *spec.Type, depth int) []any {
 	return out
 }
 
+// gCandidates is spec.Candidates plus, for arrays and maps, every candidate of the element type
+// (and of the key type) once as a one-element collection: the shared menu builds collections from
+// the first two valid elements only, so an element value such as a float with many significant
+// digits, an extreme number or a string with special characters would otherwise never travel
+// inside a collection.
+func gCandidates(sp *spec.Spec, t *spec.Type, loc string, depth int) []any {
+	out := sp.Candidates(t, loc, depth)
+	e := sp.Eff(t)
+	if e.K != spec.KArray && e.K != spec.KMap {
+		return out
+	}
+	seen := map[string]bool{}
+	for _, v := range out {
+		seen[spec.Canon(v)] = true
+	}
+	add := func(v any) {
+		if c := spec.Canon(v); !seen[c] {
+			seen[c] = true
+			out = append(out, v)
+		}
+	}
+	firstValid := func(t *spec.Type, vals []any) (any, bool) {
+		for _, v := range vals {
+			if v != nil && len(sp.Check(t, v, "")) == 0 {
+				return v, true
+			}
+		}
+		return nil, false
+	}
+	switch e.K {
+	case spec.KArray:
+		for _, el := range sp.Candidates(e.Elem, loc, depth+1) {
+			if el != nil {
+				add(spec.Arr{el})
+			}
+		}
+	case spec.KMap:
+		keys := sp.Candidates(e.Key, spec.LocBody, depth+1)
+		elems := sp.Candidates(e.Elem, spec.LocBody, depth+1)
+		k0, okK := firstValid(e.Key, keys)
+		e0, okE := firstValid(e.Elem, elems)
+		if okK {
+			for _, el := range elems {
+				if el != nil {
+					add(spec.MapV{{K: k0, V: el}})
+				}
+			}
+		}
+		if okE {
+			for _, k := range keys {
+				if k != nil {
+					add(spec.MapV{{K: k, V: e0}})
+				}
+			}
+		}
+	}
+	return out
+}
+
 // gValues enumerates candidate values of a payload/result type: the complete product over the
 // attributes when it has at most spec.ProductCap elements, otherwise the star around the
 // first valid value of every attribute.
@@ -162,7 +231,7 @@ func gValues(sp *spec.Spec, t *spec.Type, l *GLayout) []any {
 	}
 	e := sp.Eff(t)
 	if e.K != spec.KObject {
-		return sp.Candidates(t, spec.LocBody, 0)
+		return gCandidates(sp, t, spec.LocBody, 0)
 	}
 	type dom struct {
 		name string
@@ -180,7 +249,7 @@ func gValues(sp *spec.Spec, t *spec.Type, l *GLayout) []any {
 			if p := l.byAttr(a.Name); p != nil && p.Where != spec.GMessage {
 				loc = spec.LocHeader
 			}
-			vals = sp.Candidates(a.T, loc, 1)
+			vals = gCandidates(sp, a.T, loc, 1)
 		}
 		vals = append([]any{nil}, vals...)
 		doms = append(doms, dom{a.Name, a.T, vals})
@@ -745,7 +814,7 @@ func c10Request(g *GRPCSvc, m *spec.Method, l *GLayout, v any, issues []spec.Iss
 	}
 	// the designed partition: metadata attributes travel as metadata under the designed key
 	for _, p := range l.Places {
-		if p.Where != spec.GMetadata || obs.ReqMD == nil {
+		if p.Where != spec.GMetadata || obs.ReqMD == nil || p.Wire == "" {
 			continue
 		}
 		pv := attrOf(l, p, sentN)
